@@ -42,4 +42,10 @@ m = {
     "notes": "Every check: regenerate Gen facts from /repo, lake build the property's theorem module, audit axioms, run the correspondence and the searchers, decide (DESIGN.md §1.3/§1.4).",
 }
 json.dump(m, open(os.path.join(ROOT, "MANIFEST.json"), "w"), indent=1)
+# known_findings.json = union of known/*.json (the committed known-findings file)
+kf = []
+for p in sorted(glob.glob(os.path.join(ROOT, "known", "*.json"))):
+    kf += json.load(open(p)).get("findings", [])
+json.dump({"findings": kf, "fixed_log": ["fixed: property=%s %s %s" % (k["property"], k.get("commit", "?"), k["what_fails"]) for k in kf if k.get("status") == "fixed"]},
+          open(os.path.join(ROOT, "known_findings.json"), "w"), indent=1)
 print("claimed:", sorted(claimed), "not claimed:", len(na))
